@@ -101,3 +101,24 @@ From PKOCorr Require Import PhaseCorr C01Corr C05Sound C01Sound.
 Theorem C01_monitor_sound : forall c : pcase, C01Corr.monitor (set_obs c (model_run c)) = true.
 Proof. exact C01Sound.monitor_sound. Qed.
 Print Assumptions C01_monitor_sound.
+
+(** C01 at the controller level (coq/corr/SetMonitors.v m01: a collision is reported as
+    Available=False/CollisionDetected for the generation read, or the stored condition is re-sent unchanged):
+    the monitor accepts every pass of the ObjectSet controller model. *)
+From PKO Require Import ObjectSet.
+From PKOCorr Require Import SetCorr SetMonitors SetMonSound SetMonSound2.
+Theorem C01_set_monitor_report_sound : forall c : scase, m01 (set_obs_s c (SetCorr.model_run c)) = true.
+Proof. exact m01_sound. Qed.
+Print Assumptions C01_set_monitor_report_sound.
+
+(** m01c (a collision is reported only for a refusal: some listed object exists, is not controlled and may not be
+    adopted) and m01s (m01, m01c and the phase-level monitors C01Corr m1 / m2 on the member requests of an active pass
+    of an ObjectSet with a revision, with the previous revisions the stored ObjectSets give) accept every pass of the
+    model; no well-formedness hypothesis is needed. *)
+Theorem C01_set_monitor_collision_sound : forall c : scase, m01c (set_obs_s c (SetCorr.model_run c)) = true.
+Proof. exact m01c_sound. Qed.
+Print Assumptions C01_set_monitor_collision_sound.
+
+Theorem C01_set_monitor_sound : forall c : scase, m01s (set_obs_s c (SetCorr.model_run c)) = true.
+Proof. exact m01s_sound. Qed.
+Print Assumptions C01_set_monitor_sound.
